@@ -24,20 +24,49 @@ def ClockOK (store : Store) (ts : Nat) : Prop :=
 
 /-- Under the clock hypothesis a new leader starts in a well-formed initial state: all of C01, C02, C04 apply. -/
 theorem new_leader_init (cfg : Cfg) (store : Store) (ts : Nat) (h : ClockOK store ts) :
-    C02.Init (newLeader cfg store ts) ∧ C02.StoreOK (newLeader cfg store ts) := by
-  sorry
+    C02.Init (newLeader cfg store ts) ∧ C02.StoreOK (newLeader cfg store ts) :=
+  ⟨⟨⟨rfl, rfl, rfl, rfl⟩, rfl, rfl, rfl⟩, h⟩
 
-/-- Every revision the new leader hands out is greater than every revision already in the store. -/
+/-- Counterexample to `new_revisions_above_store` as stated: the store holding `(/a, 5)` is also the
+encoding of the "decoding" `(/a, 2 ^ 64 + 5)`; the new leader (ts = 5) hands out revision 6. -/
+theorem new_revisions_above_store_counterexample :
+    let recs : List Rec := [{ key := [47, 97], rev := 5, val := [1], ik := [] }]
+    let recs' : List Rec := [{ key := [47, 97], rev := 2 ^ 64 + 5, val := [1], ik := [] }]
+    let g := run (newLeader {} (encodeStore recs) 5) [.begin 1 (.create [47, 98] [1]), .step 1 .none, .step 1 .none]
+    encodeStore recs = encodeStore recs' ∧ g.done.map (·.rev) = [6] ∧
+      (∀ r ∈ recs, Alphabet r.key ∧ r.rev ≤ 5 ∧ r.rev ≠ 0) ∧ SortedRecs recs := by
+  decide
+
+/-- Every revision the new leader hands out is greater than every (8-byte) revision already in the store. -/
 theorem new_revisions_above_store (cfg : Cfg) (store : Store) (ts : Nat) (h : ClockOK store ts)
     {g : G} (hr : Reachable (newLeader cfg store ts) g) (d : Done) (hd : d ∈ g.done)
-    (recs : List Rec) (hst : store = encodeStore recs) (r : Rec) (hrm : r ∈ recs) : r.rev < d.rev := by
-  sorry
+    (recs : List Rec) (hst : store = encodeStore recs) (r : Rec) (hrm : r ∈ recs) (hrb : r.rev < 2 ^ 64) :
+    r.rev < d.rev := by
+  obtain ⟨recs', hst', _, hall, hts⟩ := h
+  have hb' : ∀ r' ∈ recs', r'.rev < 2 ^ 64 := fun r' hr' => by
+    have := (hall r' hr').2.1
+    omega
+  obtain ⟨r', hr', _, e⟩ := rec_of_encodeStore_eq (hst.symm.trans hst') hrm hrb hb'
+  have h1 : r.rev ≤ ts := e ▸ (hall r' hr').2.1
+  have h0 := (new_leader_init cfg store ts ⟨recs', hst', ‹_›, hall, hts⟩).1
+  have h2 := (C02.stamps_bracket h0 hr d hd).1
+  have h3 : ts ≤ d.beginDealt :=
+    (hr.closed (LowInv.closed ts) (LowInv.init (g := newLeader cfg store ts) rfl rfl)).dn d hd
+  omega
+
+/-- Counterexample to `reads_see_everything` as stated: nothing bounds `ts` (nor the stored revisions)
+by `2 ^ 64 - 1`. -/
+theorem reads_see_everything_counterexample :
+    let recs : List Rec := [{ key := [47, 97], rev := 2 ^ 64, val := [1], ik := [] }]
+    (∀ r ∈ recs, r.rev ≤ 2 ^ 64) ∧ readAt (2 ^ 64) recs [47, 97] ≠ readAt (2 ^ 64 - 1) recs [47, 97] := by
+  decide
 
 /-- Everything written before remains visible: a read at the new leader's revision is the read of
-the latest state. -/
-theorem reads_see_everything {recs : List Rec} (ts : Nat) (hall : ∀ r ∈ recs, r.rev ≤ ts) (k : Bytes) :
-    readAt ts recs k = readAt (2 ^ 64 - 1) recs k := by
-  sorry
+the latest state (`ts < 2 ^ 64` is part of the clock hypothesis `ClockOK`). -/
+theorem reads_see_everything {recs : List Rec} (ts : Nat) (hall : ∀ r ∈ recs, r.rev ≤ ts)
+    (hts : ts < 2 ^ 64) (k : Bytes) : readAt ts recs k = readAt (2 ^ 64 - 1) recs k := by
+  unfold readAt
+  rw [visible_eq_of_all_le (R' := 2 ^ 64 - 1) (fun r hr => ⟨hall r hr, by have := hall r hr; omega⟩) k]
 
 /-! ### the Badger clock -/
 
@@ -61,7 +90,16 @@ def countStep (c : Counters) : ReqOutcome → Counters
 theorem badger_clock_ok_without_failures (c : Counters) (h : c.maxStored ≤ c.commits) (hd : c.dealt ≤ c.commits)
     (l : List ReqOutcome) (hl : ∀ o ∈ l, o = .applied) :
     (l.foldl countStep c).maxStored ≤ (l.foldl countStep c).commits := by
-  sorry
+  induction l generalizing c with
+  | nil => exact h
+  | cons o os ih =>
+    have ho : o = .applied := hl o (List.mem_cons_self ..)
+    subst ho
+    simp only [List.foldl_cons]
+    apply ih
+    · simp only [countStep]; omega
+    · simp only [countStep]; omega
+    · intro o ho; exact hl o (List.mem_cons_of_mem _ ho)
 
 /-- ... but one failed request followed by an applied one makes it lag behind the store for good:
 the clock hypothesis is false for Badger (known finding). -/
